@@ -14,6 +14,10 @@ class RelaxationTensor(SuperOperator, Secular, Saveable):
     
     is_time_dependent = False
     
+    # name used in the messages about basis changes (subclasses which do
+    # not call the constructor of this class rely on this default)
+    name = ""
+    
     def __init__(self):
         
         self._initialize_basis()
